@@ -5,7 +5,7 @@
 Require Import String.
 Require Import List NArith Bool PeanoNat Lia ZifyBool ZifyN.
 Require Import KV.Parser.Utf8 KV.Parser.Unicode KV.Parser.Keywords KV.Parser.Scanners KV.Parser.Grammar KV.Parser.Run.
-Require Import KV.Parser.Utf8Proofs KV.Parser.ScannerProofs KV.Parser.GrammarProofs KV.Parser.RoundTrip KV.Parser.RoundTrip2 KV.Parser.RoundTrip3.
+Require Import KV.Parser.Utf8Proofs KV.Parser.ScannerProofs KV.Parser.HelperProofs KV.Parser.GrammarProofs KV.Parser.RoundTrip KV.Parser.RoundTrip2 KV.Parser.RoundTrip3.
 Import ListNotations.
 Open Scope N_scope.
 
@@ -221,17 +221,29 @@ Print Assumptions C16_roundtrip_select.
    on generated trees under ~10 layouts by the tree stream of checks/c16.py (implementation vs Spec tree vs this
    model) and by the exhaustive follower stream, not by a theorem. *)
 
-(* ---- the lexical helpers of the lowering (utils.rs): latent panic ------------------------------- *)
-(* unescape_sparql_iri / literal_lexical_value slice `&hexadecimal[..digits]` without knowing that those bytes are
-   ASCII: on the valid string `\u000` followed by U+00E9 the model (and the real function, see known finding
-   C16-lexical-helper-slice) panics.  Every caller passes text the scanners above have validated. *)
-Theorem C16_unescape_refuted :
-  exists s, Valid s /\ unescape_iri s = Panic /\ literal_lexical_value (34 :: s ++ [34]) = Panic.
+(* ---- the lexical helpers of the lowering (utils.rs) ------------------------------------------------ *)
+(* unescape_sparql_iri and literal_lexical_value (as repaired by 484100d: `hexadecimal.get(..digits)`) return a
+   string on EVERY valid UTF-8 input - no panic, no fuel exhaustion, no precondition on the escapes. *)
+Theorem C16_lexical_helpers_total :
+  forall s, Valid s ->
+    (exists r, unescape_iri s = Ok r) /\ (exists r, literal_lexical_value s = Ok r).
 Proof.
-  exists (bs "\u000" ++ [195; 169]). split; [|split; vm_compute; reflexivity].
+  intros s Hv. pose proof (unescape_iri_total s Hv) as H1. pose proof (literal_lexical_value_total s Hv) as H2.
+  split; [destruct (unescape_iri s); try contradiction; eauto|destruct (literal_lexical_value s); try contradiction; eauto].
+Qed.
+Print Assumptions C16_lexical_helpers_total.
+
+(* Regression lemma about the code BEFORE 484100d (`&hexadecimal[..digits]`, model variant `checked = false`): on the
+   valid string backslash-u-0-0-0 followed by U+00E9 it panicked; the repaired code returns the text unchanged
+   except for the dropped backslash (not an escape).  Former known finding C16-lexical-helper-slice. *)
+Theorem C16_unescape_prefix_regression :
+  exists s, Valid s /\ unescape_iri_gen false s = Panic /\ literal_lexical_value_gen false (34 :: s ++ [34]) = Panic /\
+            unescape_iri s = Ok [117; 48; 48; 48; 195; 169].
+Proof.
+  exists (bs "\u000" ++ [195; 169]). split; [|repeat split; vm_compute; reflexivity].
   exists [92; 117; 48; 48; 48; 233]. split; [repeat constructor|vm_compute; reflexivity].
 Qed.
-Print Assumptions C16_unescape_refuted.
+Print Assumptions C16_unescape_prefix_regression.
 
 (* ---- non-vacuity -------------------------------------------------------------------------------- *)
 Example C16_example_select :
